@@ -293,8 +293,81 @@ add({"name": "mfm_read_byte", "file": "dfs/track_mfm.cc",
                (r'error = "unexpected end-of-track";', "g_diag++;", 1),
                (r"std::ostringstream ss;.*?error = ss\.str\(\);", "g_diag++;  /* diagnostic text dropped */", 1),
                (r"return std::nullopt;", "{ struct opt_byte none_; none_.has = 0; none_.val = 0; return none_; }", 2),
-               (r"return data;", "{ struct opt_byte some_; some_.has = 1; some_.val = (byte)data; return some_; }", 1)],
+               (r"return data;", "{ struct opt_byte some_; some_.has = 1; some_.val = (byte)data; return some_; }", 1),
+               (r"(for \(int bitnum = 0; bitnum < 8; \+\+bitnum\))", r"\1 MFM_BYTE_LOOP_CONTRACT", 1)],
      "dropped": ["diagnostic text"]})
+
+# ---- track_mfm.cc / track.cc / track.h (C06 first sentence): the MFM decoder -------------------------------------------
+add({"name": "track_constants", "file": "dfs/track.h", "anchor": r"constexpr int normal_fm_clock = ", "region_end": r"\n\s*\n",
+     "toplevel": True, "sig": "",
+     "rules": [(r"constexpr int (\w+) = ([^;]*);", r"enum { \1 = \2 };", ">=4")]})
+add({"name": "CCITT_CRC16_init", "file": "dfs/crc.h",
+     "anchor": r"static constexpr unsigned long init = [^;]*;(?=\s*public:\s*CCITT_CRC16\(\);)",
+     "region_end": r"\s*public:",
+     "sig": "static unsigned long CCITT_CRC16_init(void)",
+     "rules": [(r"static constexpr unsigned long init = ([^;]*);", r"return \1;", 1)],
+     "dropped": ["the constructor chain CCITT_CRC16() : CRC16Base(init), CRC16Base(uint16_t init) : crc_(init) (mem-initialisers)"]})
+add({"name": "CRC16Base_get", "file": "dfs/crc16.cc", "anchor": r"unsigned long CRC16Base::get\(\) const",
+     "sig": "static unsigned long CRC16Base_get(const struct CRC16Base *self)",
+     "pre": "#define crc_ (self->crc_)\n", "post": "#undef crc_\n", "rules": []})
+add({"name": "check_crc_with_a1s", "file": "dfs/track_mfm.cc",
+     "anchor": r"bool check_crc_with_a1s\(const std::vector<byte>& data, std::string& error\)",
+     "sig": "static bool check_crc_with_a1s(const struct decvec *data)",
+     "rules": [(r"static const byte a1bytes\[\] = \{([^}]*)\};",
+                r"static const byte a1bytes_src[] = {\1}; const byte *a1bytes = crc_stream_place(a1bytes_src, sizeof(a1bytes_src));  /* the constant array, placed at the front of the logical CRC stream (contents asserted equal) */", 1),
+               (r"sizeof\(a1bytes\)", "sizeof(a1bytes_src)", ">=1"),
+               (r"DFS::CCITT_CRC16 crc;", "struct CRC16Base crc; crc.crc_ = CCITT_CRC16_init();", 1),
+               (r"crc\.update\(", "CRC16Base_update(&crc, ", ">=1"),
+               (r"crc\.get\(\)", "CRC16Base_get(&crc)", ">=1"),
+               (r"data\.data\(\)", "h_vec_store", ">=1"), (r"data\.size\(\)", "data->n", ">=1"),
+               (r"std::ostringstream ss;.*?error = ss\.str\(\);", "g_diag++;  /* diagnostic text dropped */", "=0or1")],
+     "dropped": ["diagnostic text"]})
+add({"name": "copy_mfm_bytes", "file": "dfs/track_mfm.cc",
+     "anchor": r"bool copy_mfm_bytes\(const Track::BitStream& bits, size_t& thisbit,\s*size_t n, std::vector<byte>\* out,\s*std::string& error\)",
+     "sig": "static bool copy_mfm_bytes(const struct BitStream *bits, size_t *thisbit_, size_t n, struct decvec *out)",
+     "pre": "#define thisbit (*thisbit_)\n", "post": "#undef thisbit\n",
+     "rules": [(r"std::optional<Track::byte> data = read_byte\(bits, thisbit, error\);", "struct opt_byte data = mfm_read_byte(bits, &thisbit);", 1),
+               (r"if \(data\)", "if (data.has)", 1), (r"out->push_back\(\*data\);", "decvec_push(out, data.val);", 1),
+               (r"(while \(n--\))", r"\1 COPY_MFM_LOOP_CONTRACT", 1)]})
+add({"name": "decode_sector_address_and_size", "file": "dfs/track.cc",
+     "anchor": r"bool decode_sector_address_and_size\(const byte\* header, SectorAddress\* address,\s*int\* siz, std::string& error\)",
+     "sig": "static bool decode_sector_address_and_size(const byte *header, struct SectorAddress *address, int *siz)",
+     "rules": [(r"std::ostringstream ss;.*?error = ss\.str\(\);", "g_diag++;  /* diagnostic text dropped */", ">=0")],
+     "dropped": ["diagnostic texts"]})
+add({"name": "BitStream_scan_for", "file": "dfs/track.h",
+     "anchor": r"std::optional<std::pair<size_t, int64_t>> scan_for\(size_t start,\s*uint64_t val,\s*uint64_t mask\) const",
+     "sig": "static struct opt_scan BitStream_scan_for(const struct BitStream *self, size_t start, uint64_t val, uint64_t mask)",
+     "rules": [(r"\braw_pos\(", "BitStream_raw_pos(self, ", 1), (r"\brawbit\(", "BitStream_rawbit(self, ", 1),
+               (r"\braw_bit_size_\b", "self->raw_bit_size_", ">=1"), (r"\bstride_\b", "self->stride_", ">=1"),
+               (r"return std::make_pair\(([^;]*)\);", r"{ struct opt_scan some_; some_.has = 1; scan_pair(&some_, \1); return some_; }", 1),
+               (r"return std::nullopt;", "{ struct opt_scan none_; none_.has = 0; none_.first = 0; none_.second = 0; return none_; }", 1),
+               (r"(for \(size_t i = BitStream_raw_pos\(self, start\); i < self->raw_bit_size_; \+\+i_cooked, i \+= self->stride_\))", r"\1 SCAN_LOOP_CONTRACT", 1)]})
+VERBOSE_BLOCK = (r"if \(verbose\)\s*\{[^{}]*\}", "/* verbose diagnostics dropped */")
+VERBOSE_STMT = (r"if \(verbose\)\s*std::cerr[^;]*;", "/* verbose diagnostic dropped */;")
+add({"name": "decode_mfm_track", "file": "dfs/track_mfm.cc",
+     "anchor": r"std::vector<Sector> decode_mfm_track\(const BitStream& bits, bool verbose\)",
+     "sig": "static void decode_mfm_track(const struct BitStream *bits)",
+     "rules": [(r"self_test_crc\(\);", "/* self_test_crc(): asserts only (C19) */", "=0or1"),
+               (r"std::vector<Sector> result;", "/* result: every push_back is monitored */", 1),
+               (r"bits\.size\(\)", "BitStream_size(bits)", ">=1"),
+               (r"enum class MfmDecodeState", "enum MfmDecodeState", 1), (r"MfmDecodeState::", "", ">=1"),
+               (r"\bSector sec;", "struct DecSector sec; decsector_init(&sec);", 1),
+               (r"auto found = bits\.scan_for\(", "struct opt_scan found = BitStream_scan_for(bits, ", 1),
+               (r"if \(!found\)", "if (!found.has)", 1), (r"found->first", "found.first", ">=1"),
+               (r"std::string error;", "/* error text dropped */", ">=0"),
+               (r"std::vector<byte> (\w+);", r"struct decvec \1; decvec_init(&\1);", ">=1"),
+               (VERBOSE_BLOCK[0], VERBOSE_BLOCK[1], ">=0"), (VERBOSE_STMT[0], VERBOSE_STMT[1], ">=0"),
+               (r"copy_mfm_bytes\(bits, thisbit, ([^;]*?),\s*&(\w+),\s*error\)", r"copy_mfm_bytes(bits, &thisbit, \1, &\2)", ">=1"),
+               (r"check_crc_with_a1s\((\w+), error\)", r"check_crc_with_a1s(&\1)", ">=1"),
+               (r"decode_sector_address_and_size\((\w+)\.data\(\), ([^;]*?),\s*error\)", r"decode_sector_address_and_size_v(&\1, \2)", ">=1"),
+               (r"const auto is_data\b", "const _Bool is_data", "=0or1"),
+               (r"\b(mark_and_data|header)\[([^\]]*)\]", r"DECVEC_AT(&\1, \2)", ">=0"),
+               (r"sec\.data\.resize\(([^;]*)\);", r"secdata_resize(&sec, \1);", ">=0"),
+               (r"std::copy\((\w+)\.begin\(\) \+ ([^,]*),\s*\1\.begin\(\) \+ ([^,]*),\s*sec\.data\.begin\(\)\);", r"secdata_copy(&sec, &\1, (\2), (\3));", ">=0"),
+               (r"result\.push_back\(sec\);", "mon_push_sector(&sec);", ">=1"),
+               (r"return result;", "return;", 1),
+               (r"(while \(bits_avail\))", r"\1 MFM_DECODE_LOOP_CONTRACT", 1)],
+     "dropped": ["verbose diagnostics (std::cerr, hexdump)", "error strings", "the result vector itself: each push_back is checked by the monitor"]})
 
 # ---- img_mmb.cc (C04): the slot loop of the MmbFile constructor ------------------------------------------
 add({"name": "MmbFile_ctor", "file": "dfs/img_mmb.cc",
